@@ -20,6 +20,8 @@ def main():
     ap.add_argument("--replay", default=None)
     args = ap.parse_args()
     pid = args.property.upper()
+    if args.replay:
+        args.replay = os.path.abspath(args.replay)
     try:
         seed = int(os.environ.get("VERIF_SEED", "0") or 0)
     except ValueError:
